@@ -45,6 +45,84 @@ CHECKS = {
         'note': _COMMON_NOTE,
         'technique': 'Coq proof (list lemmas over the query model) + model/impl correspondence + reference-order monitor',
     },
+    'C04': {
+        'text': 'Theorems in coq/props/C04.v for every token, category selection and clef: each plain tokenizer IS its extended '
+                'counterpart followed by separator removal (kern/ekern, bkern/bekern, akern/aekern), the basic encoding is the '
+                'per-note reduction of the extended text, the factory dispatches each encoding to its tokenizer and the header '
+                'is ** + prefix + type (tables regenerated from tokenizers.py), non-note tokens with separator-free text are '
+                'identical in the six encodings. Document level: kernpy vs model and vs the generator oracle on documents x six '
+                'encodings x category selections, plus the relations between kernpy\'s six exports.',
+        'note': _COMMON_NOTE + 'The per-note string reduction (split on the decoration separator) is modelled, not proved equal to "drop the decoration sub-tokens"; that equality is checked by the oracle monitor.',
+        'technique': 'Coq proof (definitional equalities + regenerated dispatch tables) + model/impl correspondence + oracle monitor over six encodings',
+    },
+    'C05': {
+        'text': 'Theorems in coq/props/C05.v for every note and every include/exclude list: exporting with a filter equals '
+                'exporting the note with the unselected sub-parts deleted; filtering commutes with both sorts of the export '
+                '(proved for insertion sort over total transitive orders, instantiated for the category and (category, text) '
+                'keys incl. the byte-wise string order), so selected parts are never altered or reordered; include=all / '
+                'exclude=nothing is the identity; the selected set is C11\'s closure formula. Document level: every single '
+                'category as include and exclude, every (include, exclude) pair of singles, random larger sets - kernpy vs '
+                'model and vs the oracle with deleted sub-parts.',
+        'note': _COMMON_NOTE,
+        'technique': 'Coq proof (filter/sort commutation, closure algebra) + model/impl correspondence + oracle monitor',
+    },
+    'C06': {
+        'text': 'Theorems in coq/props/C06.v for every tree and option set of the exporter model: a node\'s cell is a spine gate '
+                'followed by a cell that depends on categories and encoding only; the row of a stage under a selection is the '
+                'row of the selected sub-list of nodes (order kept); unselected nodes never influence the row. Document level: '
+                'EVERY subset of spine ids and of spine types per document and the spine_types query, kernpy vs model and vs '
+                'the column projection of the generator\'s grid (origin column through splits and joins).',
+        'note': _COMMON_NOTE,
+        'technique': 'Coq proof (filter-map fusion on the exporter model) + exhaustive-subset model/impl correspondence + oracle monitor',
+    },
+    'C07': {
+        'text': 'Theorems in coq/props/C07.v on the exporter model: consecutive stage ranges compose (rows of [a,a+n+m) = rows of '
+                '[a,a+n) ++ rows of [a+n,a+n+m), each once, unmodified) and a negative start / end beyond M / end before start '
+                'yields ValueError. Which stages a measure spans, the partition of the full export by the single-measure '
+                'exports and iteration are decided on EVERY pair a <= b of generated documents: kernpy vs model and vs the '
+                'generator\'s own measure segmentation. Known finding K10 (ragged signature rows raise).',
+        'note': _COMMON_NOTE,
+        'technique': 'Coq proof (range composition, validator) + all-pairs model/impl correspondence + oracle monitor',
+    },
+    'C08': {
+        'text': 'PARTIAL. Theorems in coq/props/C08.v on the exporter model: every excerpt ends with spine terminators (existing '
+                'row or a synthetic row sized by the spine operators before it), its body is C07\'s stage range, bad ranges are '
+                'rejected. The composition import-export-import (header first, rectangular, re-imports without errors, same '
+                'clef/key/meter in force for every note) is NOT proved; for the claimed core class it is decided by running '
+                'kernpy on every range of generated documents with an independent path walk over excerpt and full score, and '
+                'by model/impl correspondence. The other classes are explored and reported as finding K5.',
+        'note': _COMMON_NOTE + 'Partial: no theorem covers the re-import of the excerpt.',
+        'technique': 'Coq proof (partial: terminator row, range arithmetic) + all-ranges model/impl correspondence + independent well-formedness / signature monitor',
+    },
+    'C13': {
+        'text': 'Theorems in coq/props/C13.v: spine selection is a gate independent of the cell; cells depend on (categories, '
+                'encoding) only; each encoding is a cell-wise map applied to the category-filtered extended text; explicit '
+                'default categories select the same set as omission. Document level: combinations of two or three non-default '
+                'options (subsets of ids/types, include/exclude, six encodings) against the composed transformations of the '
+                'generator\'s description, and six explicit-default variants, kernpy vs model vs oracle.',
+        'note': _COMMON_NOTE,
+        'technique': 'Coq proof (per-node factorisation, encoding-after-filter) + model/impl correspondence on option products + oracle monitor',
+    },
+    'C15': {
+        'text': 'Theorems in coq/props/C15.v on the model of to_transposed, for every document: stages, measure index, header '
+                'stage, node count, parents/headers/signatures of every node are kept; tokens that are not single notes/rests are '
+                'untouched; a note keeps durations, accidental sub-tokens and signifiers and each PITCH sub-token becomes '
+                'transpose(pitch) (C09); the clause "source unchanged" is refuted with a witness (clone shares nodes). '
+                'Correspondence on documents x intervals x directions (result and source exports). Core class (single notes '
+                'without explicit accidental) checked against C09 on kernpy; findings K4a (explicit accidentals), K4b (chord '
+                'notes), K4c (source modified).',
+        'note': _COMMON_NOTE + 'Sharing between the clone and the source is made explicit in the model: to_transposed returns (result, source afterwards).',
+        'technique': 'Coq proof (fold invariants over the node store, refutation witness by vm_compute) + model/impl correspondence + C09-based monitor',
+    },
+    'C19': {
+        'text': 'Theorems in coq/props/C19.v for every list of fragments: concat returns one pair per fragment, consecutive from 0, '
+                'the last to = measure count of the result; the result is the import of the joined text; importing r1 ++ r2 is '
+                'importing r2 from the state after r1 and the measure index of a prefix is a prefix of the index of the whole '
+                '(induction over rows). Correspondence and monitors on scores cut at sets of barline positions into 1..6 '
+                'fragments with both separators, incl. exporting every pair.',
+        'note': _COMMON_NOTE,
+        'technique': 'Coq proof (induction over fragments and rows) + model/impl correspondence + fragment-export monitor',
+    },
     'C09': {
         'text': 'Theorems in coq/props/C09.v hold for every octave in Z (finite residue sweep by vm_compute lifted with '
                 'Z.div/mod lemmas; inverse, unison, octave, P4+P5 and failure-only-on-residue-22 proved algebraically for '
